@@ -282,6 +282,31 @@ var genNumber = rapid.Custom(func(t *rapid.T) string {
 
 func genCase(t *rapid.T) Case {
 	items := rapid.SliceOfN(rapid.OneOf(rapid.SampledFrom(pool), rapid.SampledFrom(pool), rapid.SampledFrom(pool), genNumber), 0, 6).Draw(t, "items")
+	if rapid.IntRange(0, 7).Draw(t, "long") == 0 {
+		// a long list of distinct values (7 ... 70), in which one value may come a second time - at any two
+		// positions, also in another spelling
+		n := rapid.SampledFrom([]int{7, 8, 9, 10, 15, 16, 17, 18, 31, 32, 33, 34, 64, 65, 70}).Draw(t, "longn")
+		items = nil
+		for i := 0; i < n; i++ {
+			switch i % 3 {
+			case 0:
+				items = append(items, fmt.Sprintf(`"v%d"`, i))
+			case 1:
+				items = append(items, fmt.Sprint(i))
+			default:
+				items = append(items, fmt.Sprintf("%d.5", i))
+			}
+		}
+		if rapid.Bool().Draw(t, "plant") {
+			from := rapid.IntRange(0, n-1).Draw(t, "dupfrom")
+			at := rapid.IntRange(from+1, n).Draw(t, "dupat")
+			dup := items[from]
+			if strings.HasPrefix(dup, `"v`) && rapid.Bool().Draw(t, "respell") {
+				dup = `"\u0076` + dup[2:] // the same string, its first letter escaped
+			}
+			items = append(items[:at], append([]string{dup}, items[at:]...)...)
+		}
+	}
 	if rapid.IntRange(0, 2).Draw(t, "dedupe") > 0 {
 		seen := map[string]bool{}
 		var out []string
